@@ -326,6 +326,9 @@ func TestC16_Focused(t *testing.T) { c16Focused.Run(t) }
 type C16WalkCase struct {
 	G graph.Graph `json:"graph"`
 	S refsel.Sel  `json:"selector"`
+	// KeepContainers: the transform function answers a matched map or list with a freshly built node of equal
+	// content (a replacement all the same: nothing below it is visited) and changes matched scalars only
+	KeepContainers bool `json:"keep_containers,omitempty"`
 }
 
 // c16F is the deterministic transform applied to every matched node.
@@ -354,6 +357,15 @@ func stripSubsets(s refsel.Sel) refsel.Sel {
 
 func c16WalkCheck(c C16WalkCase, rec *evid.Rec) error {
 	sel := stripSubsets(c.S)
+	c16F := c16F
+	if c.KeepContainers {
+		c16F = func(v val.V) val.V {
+			if v.K == val.Map || v.K == val.List {
+				return v
+			}
+			return val.MkMap(val.Ent{K: "was", V: val.MkString(v.K.String())}, val.Ent{K: "h", V: val.MkInt(int64(v.Hash() % 1000))})
+		}
+	}
 	want := refsel.Transform(c.G, sel, c16F)
 	if len(want.Targets) > 2000 {
 		rec.Class("skipped:too-big")
@@ -432,10 +444,10 @@ func c16WalkCheck(c C16WalkCase, rec *evid.Rec) error {
 
 var c16Walk = evid.Part[C16WalkCase]{
 	Prop: "C16", Name: "walking", Quick: 2500, Thorough: 1000000,
-	Rule: "(graph, selector) from the C07 generators (subset bounds removed: the transform contract does not define slicing) with WalkTransforming and a deterministic function of the matched value; compared with the reference top-down replacement; non-trivial = at least one target and (a link crossed or ≥2 targets); distinct by (graph, selector)",
+	Rule: "(graph, selector) from the C07 generators (subset bounds removed: the transform contract does not define slicing) with WalkTransforming and a deterministic function of the matched value (in a third of the cases one that answers matched containers with a freshly built node of equal content: still a replacement, nothing below it is visited); compared with the reference top-down replacement; non-trivial = at least one target and (a link crossed or ≥2 targets); distinct by (graph, selector)",
 	Gen: func(t *rapid.T) C16WalkCase {
 		c := genGraphSel(t, rapid.IntRange(1, 4).Draw(t, "seldepth"))
-		return C16WalkCase{G: c.G, S: c.S}
+		return C16WalkCase{G: c.G, S: c.S, KeepContainers: rapid.IntRange(0, 2).Draw(t, "keepcontainers") == 0}
 	},
 	Check: c16WalkCheck,
 }.Reg()
